@@ -31,7 +31,6 @@ def AddWithCarry(x, y, c=None):
     if c is None:
         c = bit0
     c = c.zeroextend(y.size)
-    x.sf = y.sf = True
     result = x + y + c
     sx, sy, sz = Sign(x), Sign(y), Sign(result)
     carry = (sx & sy) | (~sz & (sx | sy))
@@ -44,7 +43,6 @@ def SubWithBorrow(x, y, c=None):
     if c is None:
         c = bit0
     c = c.zeroextend(y.size)
-    x.sf = y.sf = True
     result = x - y - c
     sx, sy, sz = Sign(x), Sign(y), Sign(result)
     carry = (~sx & sy) | (sz & (~sx | sy))
